@@ -119,7 +119,7 @@ PROPS = {
                  'T8 the caller holds the write lock on the inode map (forget_one takes &mut InodeStore)'],
     ),
     'C04': dict(
-        vx_units=['iobuffers', 'fusedevw'], kx=[],
+        vx_units=['iobuffers', 'fusedevw'], kx=['file_buf'],
         design_ref='DESIGN.md section 5, C04',
         not_covered=[
             'IoBuffers::{available_bytes, split_at, allocate_file_volatile_slice, mark_dirty} (iterator fold / position with a mutating closure, VecDeque iteration): allocate_file_volatile_slice is an ASSUMED contract of consume',
@@ -129,5 +129,14 @@ PROPS = {
         ],
         trusted=['T3 vm_memory::VolatileSlice as (address, length) with offset() as documented, ranges do not wrap the address space; VecDeque via vstd',
                  'T5 nix write/writev as opaque device writes guarded by a capability'],
+    ),
+    'C13': dict(
+        vx_units=[], kx=['abi'],
+        design_ref='DESIGN.md section 5, C13',
+        not_covered=[
+            'constants absent from the installed kernel header (protocol 7.38): HAS_RESEND, FD_PASSTHROUGH, NotifyOpcode::Resend and the KERNEL_MINOR_VERSION_* thresholds are reported as UNCHECKED',
+            'the macOS ABI file (src/abi/fuse_abi_macos.rs)',
+        ],
+        trusted=['T1 Kani 0.68 / CBMC 6.11, clang 14 (C probe)', 'oracle: /usr/include/linux/fuse.h (7.38)', 'exception table kx/abi_map.json (each entry justified)'],
     ),
 }
